@@ -606,6 +606,7 @@ func cmdCheck(args []string) {
 	if exit == 0 {
 		fmt.Printf("OK property=%s tier=%s paths=%d replays=%d wall=%.1fs\n", prop, tier, totalPaths, totalReplayed, time.Since(t0).Seconds())
 	}
+	os.RemoveAll(workdir)
 	os.Exit(exit)
 }
 
@@ -680,6 +681,7 @@ func cmdReplay(args []string) {
 	v := &ViolationRec{Violation: rp.Violation}
 	if confirms(v, o) {
 		fmt.Printf("VIOLATION property=%s replay=%s\n  reproduced natively: %s %q\n", rp.Property, args[0], rp.Violation.Kind, rp.Violation.Label)
+		os.RemoveAll(workdir)
 		os.Exit(1)
 	}
 	fmt.Println("not reproduced on the current tree")
